@@ -72,11 +72,11 @@ SPEC = dict(
         dict(name='min', harness='h_min', enforce='time_point_min'),
         dict(name='seconds_part', harness='h_seconds_part', enforce='time_point_seconds_part'),
         dict(name='nanoseconds_part', harness='h_nanoseconds_part', enforce='time_point_nanoseconds_part'),
-        dict(name='plus_eq', harness='h_plus_eq', enforce='time_point_plus_eq', replace=['time_point_normalize']),
-        dict(name='minus_eq', harness='h_minus_eq', enforce='time_point_minus_eq', replace=['time_point_normalize']),
+        dict(name='plus_eq', harness='h_plus_eq', enforce='time_point_plus_eq', replace=['time_point_normalize'], solver='cadical', timeout=150),
+        dict(name='minus_eq', harness='h_minus_eq', enforce='time_point_minus_eq', replace=['time_point_normalize'], solver='cadical', timeout=150),
         dict(name='plus_d', harness='h_plus_d', enforce='time_point_plus_d', replace=['time_point_plus_eq']),
         dict(name='minus_d', harness='h_minus_d', enforce='time_point_minus_d', replace=['time_point_minus_eq']),
-        dict(name='minus', harness='h_minus', enforce='time_point_minus'),
+        dict(name='minus', harness='h_minus', enforce='time_point_minus', solver='cadical', timeout=150),
         dict(name='eq', harness='h_eq', enforce='time_point_eq'),
         dict(name='lt', harness='h_lt', enforce='time_point_lt'),
         dict(name='ne', harness='h_ne', enforce='time_point_ne', replace=['time_point_eq']),
@@ -84,10 +84,12 @@ SPEC = dict(
         dict(name='le', harness='h_le', enforce='time_point_le', replace=['time_point_lt']),
         dict(name='ge', harness='h_ge', enforce='time_point_ge', replace=['time_point_lt']),
         dict(name='lemma_order', harness='lemma_order', mode='lemma'),
-        dict(name='lemma_order_value', harness='lemma_order_value', mode='lemma'),
+        dict(name='lemma_order_value', harness='lemma_order_value', mode='lemma', timeout=150),
         dict(name='lemma_canon_unique', harness='lemma_canon_unique', mode='lemma'),
         dict(name='lemma_normalize_idempotent', harness='lemma_normalize_idempotent', mode='lemma'),
         dict(name='lemma_extremes', harness='lemma_extremes', mode='lemma'),
+        dict(name='lemma_div_axiom', harness='lemma_div_axiom', mode='lemma', timeout=150),
+        dict(name='lemma_add_sub_roundtrip', harness='lemma_add_sub_roundtrip', mode='lemma', solver='cadical', timeout=150),
     ],
     assumptions=[],
     drops=[],
